@@ -904,7 +904,15 @@ impl Exec {
                 let id = num(id)?;
                 if let Some((sn, taken)) = self.snaps.get(&id) {
                     // C16: the snapshot keeps describing the tree as it was when taken
-                    let now = sn.ranges();
+                    let now = match catch_unwind(AssertUnwindSafe(|| sn.ranges())) {
+                        Ok(x) => x,
+                        Err(_) => {
+                            self.tick("C16");
+                            self.fail("C16", "PageRangeSnapshot::iter panicked on a snapshot taken from a real tree".into());
+                            self.fail("C15", "PageRangeSnapshot::iter panicked on a snapshot taken from a real tree".into());
+                            return Ok("panic".into());
+                        }
+                    };
                     let same = now == *taken;
                     let out = show_prs(&now);
                     self.tick("C16");
@@ -919,14 +927,19 @@ impl Exec {
             ["ldiff", a, b] => {
                 self.count("ldiff");
                 let (ia, ib) = (num(a)?, num(b)?);
-                let get = |e: &Exec, id: u64| -> Option<Vec<OwnedRange>> {
+                let get = |e: &Exec, id: u64| -> Option<Option<Vec<OwnedRange>>> {
                     if let Some((sn, _)) = e.snaps.get(&id) {
-                        return Some(sn.ranges());
+                        return Some(catch_unwind(AssertUnwindSafe(|| sn.ranges())).ok());
                     }
-                    e.lists.get(&id).cloned()
+                    e.lists.get(&id).cloned().map(Some)
                 };
                 let (la, lb) = match (get(self, ia), get(self, ib)) {
-                    (Some(x), Some(y)) => (x, y),
+                    (Some(Some(x)), Some(Some(y))) => (x, y),
+                    (Some(_), Some(_)) => {
+                        self.tick("C16");
+                        self.fail("C16", "PageRangeSnapshot::iter panicked on a snapshot taken from a real tree".into());
+                        return Ok("panic".into());
+                    }
                     _ => return Err(bad()),
                 };
                 self.tick("C13");
